@@ -301,7 +301,9 @@ class Resolver:
             if kind == "val":
                 t = self.term(desc[1], vis, d, compenv, dat)
             elif kind == "elem":
-                t = ("elem", self.term(desc[1], vis, d, compenv, dat))
+                it_ = self.term(desc[1], vis, d, compenv, dat)
+                # an element of a generator / comprehension is its element expression
+                t = it_[1] if it_[0] == "gen" else ("elem", it_)
             elif kind == "aug":
                 st = desc[1]
                 t = ("op", "aug" + type(st.op).__name__, (self._name(name, vis, d, compenv, dat), self.term(st.value, vis, d, compenv, dat)))
@@ -372,7 +374,13 @@ class Resolver:
                         else:
                             t = ("sub", t, ("const", p))
                 elif desc[0] == "elem":
-                    t = ("elem", self.term(desc[1], at=dat))
+                    t = self.term(desc[1], at=dat)
+                    t = t[1] if t[0] == "gen" else ("elem", t)
+                    for p in path:
+                        if t[0] in ("tuple", "list") and isinstance(p, int) and p < len(t[1]):
+                            t = t[1][p]
+                        else:
+                            t = ("sub", t, ("const", p))
                 else:
                     t = ("expr", "?")
                 out.append((st, t))
@@ -408,7 +416,8 @@ class Resolver:
         if desc[0] == "val":
             t = self.term(desc[1], at=dat)
         elif desc[0] == "elem":
-            t = ("elem", self.term(desc[1], at=dat))
+            t = self.term(desc[1], at=dat)
+            t = t[1] if t[0] == "gen" else ("elem", t)
         else:
             return ("expr", "?")
         for p in path:
